@@ -91,7 +91,7 @@ func simCfg(combs string, maxIn, maxItems, maxCap int) string {
 
 func checkC19(c *core.Ctx) error {
 	all := `"dup", "fmap", "joinchan", "joinslice", "joinvar", "pipeline"`
-	p := &plan{prop: "C19", procs: 16, logRuns: 8, logLines: 120}
+	p := &plan{prop: "C19", procs: nprocs(), logRuns: 8, logLines: 120}
 	p.cfgs = append(append(linearCfgs(2, 2), joinCfgs(2, 2, 2)...), pipeCfgs(2, 2, 2)...)
 	p.mc = []mcRun{
 		{name: "dup,fmap: 0..2 items x cap 0..2", cfgText: mcCfg(`"dup", "fmap"`, 1, 2, 2, true)},
@@ -104,9 +104,21 @@ func checkC19(c *core.Ctx) error {
 	p.nSim = 400
 	p.stress = 4
 	if !c.Quick() {
+		// 3 inputs x 2 items and 2 inputs x 3 items (pipeline: 3x2 and 2x3), all capacities
+		p.cfgs = dedup(append(append(append(append(linearCfgs(3, 2), joinCfgs(3, 2, 2)...), joinCfgs(2, 3, 2)...), pipeCfgs(3, 2, 2)...), pipeCfgs(2, 3, 2)...))
+		p.mc = []mcRun{
+			{name: "dup,fmap: 0..3 items x cap 0..2", cfgText: mcCfg(`"dup", "fmap"`, 1, 3, 2, true), workers: 2},
+			{name: "joinchan: 0..3 inputs x 0..2 items x cap 0", cfgText: mcCfg(`"joinchan"`, 3, 2, 0, true), workers: 4},
+			{name: "joinslice: 0..3 inputs x 0..2 items x cap 0..1", cfgText: mcCfg(`"joinslice"`, 3, 2, 1, true), workers: 4},
+			{name: "joinvar: 2..3 inputs x 0..2 items x cap 0..2", cfgText: mcCfg(`"joinvar"`, 3, 2, 2, true), workers: 4},
+			{name: "joins: 0..2 inputs x 0..3 items x cap 0..2", cfgText: mcCfg(`"joinchan", "joinslice", "joinvar"`, 2, 3, 2, true), workers: 4},
+			{name: "pipeline: 0..3 x 0..2 items x cap 0", cfgText: mcCfg(`"pipeline"`, 3, 2, 0, true), workers: 4},
+			{name: "pipeline: 0..2 x 0..3 items x cap 0..2", cfgText: mcCfg(`"pipeline"`, 2, 3, 2, true), workers: 4},
+		}
+		p.simCfg = simCfg(all, 3, 2, 2)
 		p.nSim = 20000
 		p.stress = 60
-		p.logRuns, p.logLines = 30, 600
+		p.logRuns, p.logLines = 12, 300
 	}
 	p.realCfgs = p.cfgs
 	if err := runPlan(c, p); err != nil {
